@@ -1,5 +1,10 @@
 package fasthttp
 
+import (
+	"bufio"
+	"bytes"
+)
+
 // C20 — redirects never leak credentials to other hosts.
 
 type c20Hop struct {
@@ -19,12 +24,27 @@ type c20Doer struct {
 
 func (d *c20Doer) Do(req *Request, resp *Response) error {
 	i := len(d.hops)
+	// what would go on the wire for this hop (a copy: Write finalises headers)
+	var cp Request
+	req.CopyTo(&cp)
+	var wb bytes.Buffer
+	bw := bufio.NewWriter(&wb)
+	cp.Write(bw) //nolint:errcheck
+	bw.Flush()
+	wire := wb.Bytes()
+	wireBody := false
+	for k := 0; k+3 < len(wire); k++ {
+		if string(wire[k:k+4]) == "\r\n\r\n" {
+			wireBody = k+4 < len(wire)
+			break
+		}
+	}
 	d.hops = append(d.hops, c20Hop{
 		host:    string(req.URI().Host()),
 		method:  string(req.Header.Method()),
 		hasAuth: len(req.Header.Peek(HeaderAuthorization)) > 0 || len(req.Header.Peek(HeaderProxyAuthorization)) > 0,
 		hasCk:   len(req.Header.Peek(HeaderCookie)) > 0,
-		hasBody: len(req.Body()) > 0,
+		hasBody: len(req.Body()) > 0 || wireBody,
 		hasCL:   len(req.Header.Peek(HeaderContentLength)) > 0 || len(req.Header.Peek(HeaderTransferEncoding)) > 0 || len(req.Header.Peek(HeaderContentType)) > 0,
 	})
 	resp.Reset()
@@ -94,11 +114,16 @@ func vhC20Redirects() {
 	}
 	var req Request
 	var resp Response
-	post := vBool("post")
-	if post {
+	postMode := vChoose("post", 3) // none, raw body, form arguments
+	post := postMode > 0
+	switch postMode {
+	case 1:
 		req.Header.SetMethod(MethodPost)
 		req.SetBodyString("secret-body")
 		req.Header.SetContentType("text/plain")
+	case 2:
+		req.Header.SetMethod(MethodPost)
+		req.PostArgs().Set("secret", "form")
 	}
 	req.Header.Set(HeaderAuthorization, "Bearer t")
 	req.Header.Set(HeaderCookie, "sid=1")
